@@ -88,6 +88,8 @@ pub struct VolState {
     pub lost_seen: u32,
     /// lowest ground-truth free count seen since mount (to know whether a stale FSInfo count can have saturated)
     pub min_free_since_mount: u32,
+    /// highest ground-truth free count seen since mount (a stale count near u32::MAX can have saturated at the top)
+    pub max_free_since_mount: u32,
 }
 
 #[derive(Clone, Debug)]
@@ -176,6 +178,8 @@ pub struct Allow {
     pub read_only: bool,
     /// the call was refused: any change is a C07 matter
     pub refused: bool,
+    /// the call only ever extends chains (write): an entry that linked two clusters before the call keeps its value
+    pub extend_only: bool,
 }
 
 pub struct World<'a> {
@@ -280,7 +284,7 @@ impl<'a> World<'a> {
             let used = fat.used_count();
             let free = fat.free_count();
             let next_dir = tree.dirs.len() as u32;
-            vols.push(VolState { geom: o.geom.clone(), mbr_slot: v.slot, fat, used, free, dirs, next_dir, mounted: false, info_at_mount: None, hint_named_free_at_mount: false, fat_changed_since_mount: false, lost_seen: 0, min_free_since_mount: free });
+            vols.push(VolState { geom: o.geom.clone(), mbr_slot: v.slot, fat, used, free, dirs, next_dir, mounted: false, info_at_mount: None, hint_named_free_at_mount: false, fat_changed_since_mount: false, lost_seen: 0, min_free_since_mount: free, max_free_since_mount: free });
         }
         let mk = |n: usize| n + 1;
         World {
@@ -484,6 +488,9 @@ impl<'a> World<'a> {
                             }
                         } else if !was_free && is_free {
                             v.free += 1;
+                            if v.free > v.max_free_since_mount {
+                                v.max_free_since_mount = v.free;
+                            }
                         }
                     }
                     eff.fat_changes.push((vi, c, o, n));
